@@ -132,6 +132,7 @@ func c09(c *core.Ctx) {
 		k.Distinct(fmt.Sprintf("prime|%d", k.Index))
 	})
 	c.Family("modexp", c.N(60, 8000), func(k *core.Case) {
+		noiseFor(k)
 		gi := k.Index % 2
 		g, p, n := grp(gi)
 		type heldRes struct {
@@ -211,6 +212,7 @@ func c09(c *core.Ctx) {
 		k.Distinct(fmt.Sprintf("lzs|%d|%d", gi, leadingZeros(sh)))
 	})
 	c.Family("agreement", c.N(40, 10000), func(k *core.Case) {
+		noiseFor(k)
 		gi := k.Index % 2
 		g, p, n := grp(gi)
 		a, err1 := security.GenerateRandomNumber()
@@ -230,6 +232,12 @@ func c09(c *core.Ctx) {
 		if !bytes.Equal(sa, ref.FixedLen(ref.ModExp(new(big.Int).SetBytes(pb), a, p), n)) {
 			k.Violate("mismatch", "shared-secret-wrong/agreement", "", M{"a": a.Text(16)})
 			return
+		}
+		// observation only (not judged: C09 speaks about what the DH calls compute, not about what a later keying call may
+		// do with the slice it is handed, e.g. wipe it): does keying an IKE SA with the returned slice modify it?
+		want := append([]byte{}, sa...)
+		if ka := newInfoKey(0, 0, 0, gi); ka.GenerateKeyForIKESA(k.R.Bytes(32), sa, 1, 2) == nil && !bytes.Equal(sa, want) {
+			k.Count("shared_secret_slice_modified_by_keying(not judged)", 1)
 		}
 		k.Distinct(fmt.Sprintf("agree|%d|%d", gi, k.Index/2%8))
 	})
@@ -419,12 +427,23 @@ func c10(c *core.Ctx) {
 		"interleaved Encrypt/Decrypt histories on one object equal fresh objects under a deterministic stream; distinct = (key size, length class / pad relation / fault index)")
 	c.Info("assumptions", "fault verdicts are defined for the baseline toolchain go1.23")
 	c.Family("key-sizes", 65*3, func(k *core.Case) {
+		noiseFor(k)
 		want := []int{16, 24, 32}[k.Index%3]
 		n := k.Index / 3
 		k.Eval(1)
 		var err error
 		var ci interface{}
-		pn := core.Try(func() { ci, err = newCipher(want, k.R.Bytes(n)) })
+		key := k.R.Bytes(n)
+		pn := core.Try(func() {
+			if n != want && (n == 16 || n == 24 || n == 32) {
+				// the same key octets are in use elsewhere in the process, legitimately, under the transform of their own
+				// size (another SA negotiated that size): this transform must still refuse them
+				if _, e0 := newCipher(n, append([]byte{}, key...)); e0 == nil {
+					k.Count("wrong_size_key_already_in_use_under_its_own_size", 1)
+				}
+			}
+			ci, err = newCipher(want, key)
+		})
 		if pn != nil {
 			k.Violate("panic", "NewCrypto: "+pn.Sig(), "panic", panicData(pn, M{"negotiated": want, "key_len": n}))
 			return
@@ -436,6 +455,7 @@ func c10(c *core.Ctx) {
 		k.Distinct(fmt.Sprintf("keysize|%d|%d", want, n))
 	})
 	c.Family("inverse", c.N(3*2000, 3*6000000), func(k *core.Case) {
+		noiseFor(k)
 		kl := []int{16, 24, 32}[k.Index%3]
 		n := k.Index / 3
 		if n > 300 {
@@ -492,6 +512,7 @@ func c10(c *core.Ctx) {
 	// the key buffer is the caller's: successive keys written into ONE scratch buffer (or a wiped buffer followed by a
 	// genuinely all-zero key) must give cipher objects keyed with the contents at the time of each NewCrypto call
 	c.Family("key-buffer-reuse", c.N(3*40, 3*4000), func(k *core.Case) {
+		noiseFor(k)
 		kl := []int{16, 24, 32}[k.Index%3]
 		buf := make([]byte, kl)
 		var objs []interface {
@@ -730,7 +751,7 @@ func c10(c *core.Ctx) {
 		}
 		k.Distinct(fmt.Sprintf("hist|%d|%d", kl, k.Index/3%8))
 	})
-	c.Require("key_buffer_reuse_cases", "short_read_sources", "fault_at_read_0", "fault_at_read_1", "lib_pad_0", "lib_pad_15")
+	c.Require("wrong_size_key_already_in_use_under_its_own_size", "key_buffer_reuse_cases", "short_read_sources", "fault_at_read_0", "fault_at_read_1", "lib_pad_0", "lib_pad_15")
 }
 
 var _ = message.TypeSK
